@@ -6,6 +6,8 @@ use std::{
 };
 
 pub use binary_quantized::BinaryQuantized;
+#[cfg(arroy_verif)]
+pub use binary_quantized::verif_hooks as verif_bq;
 
 use bytemuck::pod_collect_to_vec;
 
